@@ -752,6 +752,8 @@ pub fn run(opts: &Options) -> FilterRepoResult<()> {
     let mut pending_inline: Option<(usize, Vec<u8>)> = None;
     // Track marks that have been emitted to avoid referencing undeclared marks in aliases
     let mut emitted_marks: HashSet<u32> = HashSet::new();
+    // The exporter terminates a complete stream with `done`
+    let mut saw_done = false;
 
     loop {
         line.clear();
@@ -1484,6 +1486,7 @@ pub fn run(opts: &Options) -> FilterRepoResult<()> {
 
         // Handle end-of-stream marker; flush buffered lightweight tag resets before 'done'
         if line == b"done\n" {
+            saw_done = true;
             crate::finalize::flush_lightweight_tag_resets(
                 &mut buffered_tag_resets,
                 &annotated_tag_refs,
@@ -1575,6 +1578,16 @@ pub fn run(opts: &Options) -> FilterRepoResult<()> {
     }
 
     drop(fi_out_opt);
+
+    if !saw_done && !import_broken {
+        let _ = fe.kill();
+        let _ = fe.wait();
+        return Err(io::Error::new(
+            io::ErrorKind::UnexpectedEof,
+            "fast-export stream ended before its terminating 'done'",
+        )
+        .into());
+    }
 
     // Finalize run: flush buffered tags (if any remain), wait, write maps, optional reset
     // Flush original stream (if present) so finalize can read it for reporting/sampling
